@@ -8,3 +8,14 @@ claim("C12",
       "Static necessary conditions of wallet atomicity, for all paths: one db.Update per operation; bucket writes unreachable outside Update closures (call-graph cut); durable-image memory stored only behind the commit's success edge and never inside the closure; every storage/helper error inside a closure reaches its return as a provably non-nil error; db.Update rolls back on error and returns Commit's result. Right level because the property quantifies over every fault point and the rules quantify over every CFG path; not a proof of atomicity (leveldb trusted).",
       "Trusted: go/types + go/ssa (x/tools v0.29.0), goleveldb transaction atomicity, frozen tables (bucket write methods, durable-image fields). Not decided: the store's own crash behaviour; partial memory refresh when a post-commit read fails.",
       "DESIGN.md §4 C12")
+
+claim("C10",
+      "CFG ordering (write→Sync→checkpoint→Sync) with file identity + error-flow + edge-cut dominance",
+      "Static necessary conditions of 'recorded progress never runs ahead of durable data' and 'never falsely complete', on every CFG path of both plotting passes: data Sync precedes every checkpoint write, the checkpoint write is followed by Sync of the same file, every possibly-successful return has passed the final checkpoint (derived from the volume), each window is written at the offset derived from its own start point, no storage error on the path is dropped, map A is removed only behind both passes' nil-return edges, readiness derives from map B's checkpoint. Right level: the property quantifies over every crash/fault point and the rule over every path; values (table equality after resume) are not decided.",
+      "Trusted: go/ssa, os.File.Sync durability semantics, file identity by normalised access path. Not decided: equality of resumed and uninterrupted tables, safety of startPoint+1, the resume start point (deliberately not a rule).",
+      "DESIGN.md §4 C10")
+claim("C07",
+      "must-pass-through (VerifyProof success edge) + provenance + read-completeness rule",
+      "Decides only the clause 'every proof served verifies against the space's public key': on every path GetProof returns a non-nil proof only behind the success edge of poc.VerifyProof applied to the returned object, the DB's own key (hash) and the caller's challenge/filter; keeper forwards proof and error; miner keeps Error==nil only. Plus a necessary condition of table correctness: plotting reads are complete (io.ReadFull or tested count).",
+      "Trusted: go/ssa, mass-core poc.VerifyProof as oracle. NOT decided (not applicable to static analysis): equality of the stored table with the construction, completeness (a proof is served whenever one exists), any number of windows.",
+      "DESIGN.md §4 C07")
